@@ -229,6 +229,8 @@ type PKIOpts struct {
 	InterCN   string
 	RootCrlDP []string
 	SerialBase int64
+	Seed       int64  // non-zero: keys are derived from (Seed, Name + role) instead of fresh randomness
+	Name       string
 }
 
 // Validity returns the default far-from-expiry window around t0.
@@ -249,13 +251,19 @@ func NewPKI(o PKIOpts) *PKI {
 		o.SerialBase = 0x1000
 	}
 	p := &PKI{}
-	p.Root.Key = NewKey()
+	mk := func(role string) *ecdsa.PrivateKey {
+		if o.Seed != 0 {
+			return NamedKey(o.Seed, o.Name+"."+role)
+		}
+		return NewKey()
+	}
+	p.Root.Key = mk("root")
 	p.Root.Cert, p.Root.DER = Issue(CertSpec{CN: CNRoot, Serial: big.NewInt(o.SerialBase + 1), NotBefore: nb, NotAfter: na,
 		IsCA: true, CRLDP: o.RootCrlDP, Pub: &p.Root.Key.PublicKey, SignKey: p.Root.Key})
-	p.Inter.Key = NewKey()
+	p.Inter.Key = mk("inter")
 	p.Inter.Cert, p.Inter.DER = Issue(CertSpec{CN: o.InterCN, Serial: big.NewInt(o.SerialBase + 2), NotBefore: nb, NotAfter: na,
 		IsCA: true, CRLDP: o.RootCrlDP, Pub: &p.Inter.Key.PublicKey, Parent: p.Root.Cert, SignKey: p.Root.Key})
-	p.TcbSign.Key = NewKey()
+	p.TcbSign.Key = mk("tcbsign")
 	p.TcbSign.Cert, p.TcbSign.DER = Issue(CertSpec{CN: CNTcbSign, Serial: big.NewInt(o.SerialBase + 3), NotBefore: nb, NotAfter: na,
 		CRLDP: o.RootCrlDP, Pub: &p.TcbSign.Key.PublicKey, Parent: p.Root.Cert, SignKey: p.Root.Key})
 	return p
@@ -280,7 +288,11 @@ func Reissue(orig Entity, parent *x509.Certificate, signKey *ecdsa.PrivateKey, n
 
 // NewLeaf issues a PCK leaf certificate under the PKI's intermediate.
 func (p *PKI) NewLeaf(cn string, serial *big.Int, sgx []byte, nb, na time.Time) Entity {
-	k := NewKey()
+	return p.NewLeafKey(NewKey(), cn, serial, sgx, nb, na)
+}
+
+// NewLeafKey is NewLeaf for a given key.
+func (p *PKI) NewLeafKey(k *ecdsa.PrivateKey, cn string, serial *big.Int, sgx []byte, nb, na time.Time) Entity {
 	c, der := Issue(CertSpec{CN: cn, Serial: serial, NotBefore: nb, NotAfter: na, CRLDP: []string{"https://api.trustedservices.intel.com/sgx/certification/v4/pckcrl?ca=platform&encoding=der"},
 		SgxExt: sgx, Pub: &k.PublicKey, Parent: p.Inter.Cert, SignKey: p.Inter.Key})
 	return Entity{Key: k, Cert: c, DER: der}
@@ -299,4 +311,52 @@ func CRL(issuer *x509.Certificate, key *ecdsa.PrivateKey, revoked []*big.Int, th
 		panic(fmt.Sprintf("CreateRevocationList: %v", err))
 	}
 	return der
+}
+
+// ---------------------------------------------------------------------------------------
+// Deterministic keys and signatures: two realisations with the same seed share every named key and the
+// bytes of their deterministic signatures, so that a faulty world and its honest twin overlap in exactly
+// the material that a stale cache or left-over state would confuse.
+
+// NamedKey derives a P-256 key from (seed, name).
+func NamedKey(seed int64, name string) *ecdsa.PrivateKey {
+	h := sha256.Sum256([]byte(fmt.Sprintf("verif-key/%d/%s", seed, name)))
+	n := elliptic.P256().Params().N
+	d := new(big.Int).SetBytes(h[:])
+	d.Mod(d, new(big.Int).Sub(n, big.NewInt(1)))
+	d.Add(d, big.NewInt(1))
+	k := &ecdsa.PrivateKey{D: d}
+	k.Curve = elliptic.P256()
+	k.X, k.Y = elliptic.P256().ScalarBaseMult(d.Bytes())
+	return k
+}
+
+// SignRSDet signs SHA-256(msg) with a nonce derived from (key, msg, tag): same inputs, same 64 bytes.
+func SignRSDet(k *ecdsa.PrivateKey, msg []byte, tag string) []byte {
+	curve := elliptic.P256()
+	n := curve.Params().N
+	z := sha256.Sum256(msg)
+	e := new(big.Int).SetBytes(z[:])
+	for ctr := 0; ; ctr++ {
+		hn := sha256.Sum256(append(append(k.D.Bytes(), z[:]...), []byte(fmt.Sprintf("/%s/%d", tag, ctr))...))
+		kk := new(big.Int).SetBytes(hn[:])
+		kk.Mod(kk, new(big.Int).Sub(n, big.NewInt(1)))
+		kk.Add(kk, big.NewInt(1))
+		rx, _ := curve.ScalarBaseMult(kk.Bytes())
+		r := new(big.Int).Mod(rx, n)
+		if r.Sign() == 0 {
+			continue
+		}
+		s := new(big.Int).Mul(r, k.D)
+		s.Add(s, e)
+		s.Mul(s, new(big.Int).ModInverse(kk, n))
+		s.Mod(s, n)
+		if s.Sign() == 0 {
+			continue
+		}
+		out := make([]byte, 64)
+		r.FillBytes(out[:32])
+		s.FillBytes(out[32:])
+		return out
+	}
 }
